@@ -1,6 +1,7 @@
 import ScrapliModel.Lemmas.SshCfg
 import ScrapliModel.Generated.SshArgv
 import ScrapliModel.Generated.SshAuth
+import ScrapliModel.Generated.SshDial
 /-!
 # C14 — SSH connections honour strict host-key checking and the configured identity
 
@@ -735,5 +736,36 @@ theorem key_then_password (a : Args) (s : SSHArgs) (keyLoads khLoads : Bool) (v 
   by_cases hp : s.privateKeyPath = [] <;> by_cases hw : a.password = [] <;>
     cases keyOk <;> cases pwOk <;>
     simp [hp, hw, List.find?, AuthMethod.isPublicKey, AuthMethod.isPassword]
+
+/-! ## the host key is looked up under the configured host and port -/
+
+/-- the two spellings of "configured host, configured port" the source may use -/
+def allowedHostNameArgs : List Bytes :=
+  [b!"Dial: fmt.Sprintf(\"%s:%d\", a.Host, a.Port)",
+   b!"Dial: net.JoinHostPort(a.Host, strconv.Itoa(a.Port))"]
+
+/-- obligation on the regenerated fact: the standard transport creates its ssh client in exactly
+one place, and the address it passes (which crypto/ssh hands to the host-key callback as the
+lookup name) is the configured `Host:Port` expression — not a resolved peer address -/
+theorem host_name_argument_is_configured :
+    Gen.SshDial.hostNameArgs.length = 1 ∧
+    Gen.SshDial.hostNameArgs.all (fun x => allowedHostNameArgs.contains x) = true := by decide
+
+/-- `knownhosts_lookup_uses_configured_host`: the name under which the known-hosts file is
+searched is `host:port` as configured — a function of the configured host and port only: it does
+not depend on the address the name resolved to, nor on any other part of the configuration -/
+theorem knownhosts_lookup_uses_configured_host (a : Args) (s : SSHArgs) (khLoads keyLoads : Bool)
+    (c : ClientCfg) (h : standardCfg a s khLoads keyLoads = .ok c) (peer : Bytes) :
+    hostKeyLookupName c peer = a.host ++ b!":" ++ fmtInt a.port ∧
+    (∀ peer', hostKeyLookupName c peer' = hostKeyLookupName c peer) ∧
+    (∀ (a' : Args) (s' : SSHArgs) (kl kl' : Bool) (c' : ClientCfg),
+      standardCfg a' s' kl kl' = .ok c' → a'.host = a.host → a'.port = a.port →
+      hostKeyLookupName c' peer = hostKeyLookupName c peer) := by
+  have hc := (standard_policy a s khLoads keyLoads c h).2.2.2.1
+  refine ⟨hc, fun _ => rfl, ?_⟩
+  intro a' s' kl kl' c' h' hh hp
+  have hc' := (standard_policy a' s' kl kl' c' h').2.2.2.1
+  show c'.addr = c.addr
+  rw [hc, hc', hh, hp]
 
 end Scrapli.SshCfg.C14
